@@ -1275,8 +1275,8 @@ class C20(Prop):
     id = "C20"
     cone = ["Properties/C20.vo"]
     prop_file = "Properties/C20.v"
-    theorems = ["C20_french_only_inserts", "C20_english_only_inserts", "C20_french_marks_protected", "C20_french_guillemet_protected", "C20_spacing_examples"]
-    partial = ["C20_spaced / C20_suppress are proved in the form: every mark of the French output is protected (an author's no-break space or protecting escape, or the inserted one), skipping interpolations, and every opening guillemet is followed by a protector; the two-space diagnostics counter (errs) and the English apostrophe rule are tied by S-typo only"]
+    theorems = ["C20_french_only_inserts", "C20_english_only_inserts", "C20_french_marks_protected", "C20_french_guillemet_protected", "C20_english_apostrophes_protected", "C20_spacing_examples"]
+    partial = ["C20_spaced / C20_suppress are proved in the form: every mark of the French output is protected (an author's no-break space or protecting escape, or the inserted one), skipping interpolations, and every opening guillemet is followed by a protector; the two-space diagnostics counter (errs) and the French apostrophe rule are tied by S-typo only"]
     assumptions = ["Model/Typo.french/english are FrenchTypography/EnglishTypography (S-typo: output inlines, number of diagnostics)"]
 
     @staticmethod
